@@ -153,8 +153,8 @@ def check(case):
 def components(tier, disabled):
     q = tier == "quick"
     return {
-        "lsig": {"strategy": semantic_program(profile="modelled", disabled=disabled, mode="lsig"),
+        "lsig": {"strategy": semantic_program(profile="modelled", disabled=disabled, max_stmts=(12 if q else 18), mode="lsig"),
                  "check": check, "examples": 1600 if q else 70000, "sample": lambda c, i: RCFG(c).text},
-        "app": {"strategy": semantic_program(profile="modelled", disabled=disabled, mode="app"),
+        "app": {"strategy": semantic_program(profile="modelled", disabled=disabled, max_stmts=(12 if q else 18), mode="app"),
                 "check": check, "examples": 1200 if q else 50000, "sample": lambda c, i: RCFG(c).text},
     }
